@@ -25,6 +25,13 @@ def ill_edits(cols, engine_kind):
         E.append(("selection missing column", ("ColumnError",), lambda ch, o: ("sel", ch, ("and", ("gt", A, ("lit", "$k9")), ("lt", Zc, A)), o)))
         # expression unsupported by the engine the operation would run in
         E.append(("calc unsupported by engine", ("EngineError",), lambda ch, o: ("calc", ch, "e", ("rneg", A, "sq" if engine_kind == "it" else "it"), None)))
+        other = "sq" if engine_kind == "it" else "it"
+        E.append(("calc unsupported (nested in a supported restricted function)", ("EngineError",),
+                  lambda ch, o: ("calc", ch, "e", ("rneg", ("rneg", A, other), "both"), None)))
+        E.append(("sort term unsupported (nested)", ("EngineError",),
+                  lambda ch, o: ("sort", ch, ((("rneg", ("add", A, ("rneg", A, other)), "both"), True),), None)))
+        E.append(("selection unsupported (nested under NOT / comparison)", ("EngineError",),
+                  lambda ch, o: ("sel", ch, ("not", ("gt", ("rneg", ("rneg", A, other), "both"), ("lit", "$k9"))), None)))
         E.append(("selection unsupported by engine", ("EngineError",), lambda ch, o: ("sel", ch, ("rgt", A, ("lit", "$k9"), "sq" if engine_kind == "it" else "it"), None)))
     E.append(("selection only missing column", ("ColumnError",), lambda ch, o: ("sel", ch, ("gt", Zc, ("lit", "$k9")), o)))
     E.append(("projection of missing column", ("ColumnError",), lambda ch, o: ("proj", ch, ("a", "z") if "a" in cols else ("z",), o)))
